@@ -32,7 +32,8 @@ pub fn functionals(thorough: bool) -> Vec<Func> {
     let mut push = |name: &str, f: F, t: f64, n: usize, chain: bool| v.push(Func { name: name.to_owned(), f: Arc::new(f), t, n, chain });
     for (vn, ver) in [("WhiteBear", FMTVersion::WhiteBear), ("KierlikRosinberg", FMTVersion::KierlikRosinberg), ("AntiSymWhiteBear", FMTVersion::AntiSymWhiteBear)] {
         push(&format!("FMT({})", vn), F::FmtFunctional(FMTFunctional::new(&arr1(&[1.0]), ver)), 1.0, 1, false);
-        if thorough {
+        // mixtures exercise the per-segment bookkeeping of the convolvers (vector weight functions for the White Bear versions)
+        if thorough || vn == "WhiteBear" {
             push(&format!("FMT({}) binary", vn), F::FmtFunctional(FMTFunctional::new(&arr1(&[1.0, 1.4]), ver)), 1.0, 2, false);
         }
     }
